@@ -419,7 +419,7 @@ def translate_expression(expr, env: Env) -> TExp:  # noqa: C901
 
             n_exps = []
             for s, e in def_f[3]:
-                n_exps.append((s, e.subs(subs, simultaneus=True)))
+                n_exps.append((s, e.xreplace(subs)))
 
             _ret = list(map(lambda se: se[1], n_exps))
 
